@@ -104,6 +104,25 @@ add('import_fnvalue', '', '(println "skip")', 'skip\n')
 
 add('match_break_nested_if', 'union S2 {\n Ci { r: int },\n Re { w: int }\n}\nfn lp2(s: S2) -> int {\n let mut n: int = 0\n while (< n 5) {\n  set n (+ n 1)\n  match s {\n   Ci(c) => {\n    (println "arm")\n    if (> c.r 2) {\n     break\n    }\n   },\n   Re(q) => { set n (+ n q.w) }\n  }\n }\n return n\n}\nshadow lp2 { assert true }', '(println (lp2 S2.Ci { r: 3 }))\n(println (lp2 S2.Ci { r: 1 }))', 'arm\n1\narm\narm\narm\narm\narm\n5\n')
 
+# the end of a range is evaluated once, whatever the body does to the things it was computed from
+add('for_end_array_length_push', '', 'let mut v: array<int> = []\nset v (array_push v 1)\nset v (array_push v 2)\nset v (array_push v 3)\nfor i in (range 0 (array_length v)) {\n    set v (array_push v (+ i 10))\n    (println i)\n}\n(println (array_length v))', '0\n1\n2\n6\n')
+add('for_end_array_length_pop', '', 'let mut v: array<int> = []\nset v (array_push v 1)\nset v (array_push v 2)\nset v (array_push v 3)\nset v (array_push v 4)\nfor i in (range 0 (array_length v)) {\n    if (> (array_length v) 1) {\n        let x: int = (array_pop v)\n        (println x)\n    }\n    (println i)\n}\n(println (array_length v))', '4\n0\n3\n1\n2\n2\n3\n1\n')
+add('for_end_var_reassigned', '', 'let mut n: int = 3\nfor i in (range 0 n) {\n    set n (+ n 5)\n    (println i)\n}\n(println n)', '0\n1\n2\n18\n')
+add('for_end_str_length_grow', '', 'let mut s: string = "ab"\nfor i in (range 0 (str_length s)) {\n    set s (+ s "x")\n    (println i)\n}\n(println s)', '0\n1\nabxx\n')
+add('for_end_global_mutated', 'let mut glim: int = 2\nfn bump() -> int {\n    set glim (+ glim 3)\n    return glim\n}\nshadow bump { assert true }', 'for i in (range 0 glim) {\n    (println (bump))\n}\n(println glim)', '5\n8\n8\n')
+add('for_start_after_end_order', 'fn mk(tag: string, v: int) -> int {\n    (println tag)\n    return v\n}\nshadow mk { assert true }', 'for i in (range (mk "start" 1) (mk "end" 3)) {\n    (println i)\n}', 'start\nend\n1\n2\n')
+
+# a block that is left abruptly still ends its scope
+add('block_shadow_break', '', 'let x: int = 7\nlet mut n: int = 0\nwhile (< n 3) {\n    set n (+ n 1)\n    let x: int = (* n 100)\n    if (== n 2) {\n        break\n    }\n    (println x)\n}\n(println x)\n(println n)', '100\n7\n2\n')
+add('block_shadow_continue', '', 'let x: int = 7\nlet mut acc: int = 0\nfor i in (range 0 4) {\n    set acc (+ acc x)\n    let x: int = (* i 1000)\n    if (== (% i 2) 0) {\n        continue\n    }\n    set acc (+ acc x)\n}\n(println acc)\n(println x)', '4028\n7\n')
+add('block_shadow_nested_break', '', 'let s: string = "outer"\nlet mut k: int = 0\nwhile (< k 2) {\n    set k (+ k 1)\n    if (> k 0) {\n        let s: string = "inner"\n        if (== k 1) {\n            continue\n        }\n        (println s)\n        break\n    }\n}\n(println s)', 'inner\nouter\n')
+add('block_shadow_return_value', 'fn pick(n: int) -> int {\n    let r: int = 5\n    if (> n 0) {\n        let r: int = (* n 2)\n        if (> r 5) {\n            return r\n        }\n    }\n    return r\n}\nshadow pick { assert true }', '(println (pick 4))\n(println (pick 1))\n(println (pick 0))', '8\n5\n5\n')
+
+# float literals that need 16 or 17 significant digits denote exactly that double (only comparisons are printed)
+add('float_literal_full_precision', 'let gthird: float = 0.6666666666666666\nlet gnext: float = 1.0000000000000002',
+    '(println (== (+ 0.1 0.2) 0.30000000000000004))\n(println (> 0.30000000000000004 0.3))\n(println (== 0.6666666666666666 (/ 2.0 3.0)))\n(println (< 1.0 1.0000000000000002))\n(println (== gthird (/ 2.0 3.0)))\n(println (> gnext 1.0))\n(println (== 0.1234567890123456 0.12345678901234561))\n(println (< 0.1234567890123456 0.1234567890123457))\n(println (== 123456.78901234567 123456.78901234568))\n(println (> 4503599627370497.5 4503599627370497.0))',
+    'true\ntrue\ntrue\ntrue\ntrue\ntrue\nfalse\ntrue\ntrue\ntrue\n')
+
 # forward references: the callee is defined after its caller (and after main)
 add('forward_call', '', '(println (later 4))\n(println (later2 "x"))', '41\nin-later2\nxx\n',
     after='fn later(x: int) -> int {\n    return (+ (* x 10) 1)\n}\nshadow later { assert true }\nfn later2(s: string) -> string {\n    (println "in-later2")\n    return (+ s s)\n}\nshadow later2 { assert true }')
